@@ -86,6 +86,7 @@ class Run:
         self.cwd0 = os.getcwd()
         self._pre = self._prev = None
         self.sched_digests = set()
+        self.thread_yields = []
         self.build_no = 0
         for m in sc.get('init', []):
             self.sb.apply_mutation(m)
@@ -260,6 +261,7 @@ class Run:
                 'builds_with_threads', 0) + (1 if sched.max_threads > 1
                                              else 0)
             self.sched_digests.add(digest(sched.choices, 10))
+            self.thread_yields.append([t.n_yields for t in sched.threads])
         out.order = list(it.order)
         out.n_opp = it.opp
         out.n_mut = sim.n_mut
@@ -1133,6 +1135,7 @@ def run_scenario(sc, opts=None):
         res['log'] = run.log
         res['runs'] = 1 + getattr(run, 'fault_runs', 0)
         res['sched_digests'] = sorted(run.sched_digests)
+        res['thread_yields'] = run.thread_yields
         res['stats'] = run.stats
         return res
     except Exception:
